@@ -7,7 +7,10 @@ from ..progprop import ProgramProperty, Getter, have, is_exc, init_step, pyval
 
 WORDS = ["a", "b", "1", "12", "x9", "é", "²", "Ab", "٣", "a-b", "", "a b", "x.y", "ǅ"]
 BASES = ["http://e.org/", "http://e.org/x/", "http://e.org/x/a_", "http://e.org/x#", "urn:x:", "h", "http://e.org/x/a_b_",
-         "https://github.com/o/r/issues/", "https://github.com/o/r/", "http://known.example/"]
+         "https://github.com/o/r/issues/", "https://github.com/o/r/", "http://known.example/",
+         # a delimiter as the very first symbol; stems one of which begins the other with a next symbol that sorts
+         # before the delimiter (the numbering follows the sorted *joined* URI prefixes)
+         "#", "_", "/", "http://e.org/x/aB_", "http://e.org/x-y/", "http://e.org/x/a-b#"]
 
 
 class C19(ProgramProperty):
@@ -66,6 +69,23 @@ class C19(ProgramProperty):
         if with_conv:
             for u in uris:
                 steps.append(q(0, "is_uri", u))
+            if rng.random() < 0.6:
+                # history: the supplied converter is curated after a discovery run -- by a merge that teaches it the
+                # base of some of the URIs, or by a fresh record -- and discovery is run again with it
+                b = rng.choice(uris)
+                base = b[: max(1, len(b) - rng.choice([1, 2, 3]))]
+                if rng.random() < 0.7:
+                    tail = [{"op": "add_prefix", "c": 0, "p": cps("known"), "u": cps("http://known.example/"), "ps": [],
+                             "us": [cps(base)], "merge": True}]
+                else:
+                    tail = [{"op": "add_prefix", "c": 0, "p": cps("later"), "u": cps(base), "ps": [], "us": []}]
+                tail += [q(0, "records")] + [q(0, "is_uri", u) for u in uris]
+                tail += [{"op": "discover", "dst": 20, "src": 0, "uris": [cps(u) for u in uris],
+                          "delims": [cps(d) for d in delims], "cutoff": cutoff, "metaprefix": cps(meta), "alnum": alnum},
+                         q(20, "records")]
+                for st in tail:
+                    st["_tail"] = True
+                steps += tail
         return {"steps": steps, "uris": uris, "delims": delims or ["#", "/", "_"], "cutoff": cutoff, "meta": meta,
                 "with_conv": with_conv,
                 "tags": [f"cutoff={cutoff}", f"delims={len(delims)}", "with-converter" if with_conv else "no-converter"]}
